@@ -758,6 +758,13 @@ def execute(lines: list[str], seed_key: str, heavy: bool, plain: list[str] | Non
                 bad.append(("wf-required", f"{where} slot {i}: required names {sorted(set(g.required_names) - keys)} are not elements {sorted(keys)}"))
             if not set(g.defaults) <= keys:
                 bad.append(("wf-defaults", f"{where} slot {i}: defaults {sorted(set(g.defaults) - keys)} are not elements {sorted(keys)}"))
+        # restriction: "restrict_to(names)" leaves exactly the elements named (whatever the multiplicity of a name)
+        if op == "restrict" and st == "ok" and t[1].isdigit() and w.slots[int(t[1])] is not None:
+            left = set(w.slots[int(t[1])].keys())
+            wanted = set(parse_list(t[2]))
+            if not left <= wanted:
+                bad.append(("restrict-keeps-other-elements",
+                            f"{where}: elements {sorted(left - wanted)} survive a restriction to {sorted(wanted)}"))
         # documented exceptions, exactly
         if exp_exc != "?" and op not in QUERIES:
             if exp_exc is None and st.startswith("E:"):
